@@ -204,6 +204,8 @@ struct Scn {
     rgap: u64,
     /// largest read size asked for (0 = whole range)
     maxread: u64,
+    /// smallest read size asked for (0 = whole range)
+    minread: u64,
     gapinject: bool,
     /// UDP only: a third machine sends datagrams to client 0's socket
     intruder: bool,
@@ -215,9 +217,30 @@ struct Scn {
 
 impl Scn {
     fn to_line(&self) -> String {
-        let w: Vec<String> = self.writes.iter().map(|c| c.iter().map(|x| x.to_string()).collect::<Vec<_>>().join(",")).collect();
+        // write sizes, run-length encoded: `<size>x<count>` for four or more equal sizes in a row
+        let w: Vec<String> = self
+            .writes
+            .iter()
+            .map(|c| {
+                let mut items: Vec<String> = vec![];
+                let mut i = 0;
+                while i < c.len() {
+                    let mut j = i;
+                    while j < c.len() && c[j] == c[i] {
+                        j += 1;
+                    }
+                    if j - i >= 4 {
+                        items.push(format!("{}x{}", c[i], j - i));
+                    } else {
+                        items.extend((i..j).map(|_| c[i].to_string()));
+                    }
+                    i = j;
+                }
+                items.join(",")
+            })
+            .collect();
         format!(
-            "scn kind={} mode={} mtu={} lat={} jit={} drop={} dup={} maxloss={} seed={} gap={} start={} adelay={} rdelay={} rgap={} maxread={} gapinject={} intruder={} dur={} backlog={} writes={}",
+            "scn kind={} mode={} mtu={} lat={} jit={} drop={} dup={} maxloss={} seed={} gap={} start={} adelay={} rdelay={} rgap={} maxread={} minread={} gapinject={} intruder={} dur={} backlog={} writes={}",
             if self.tcp { "tcp" } else { "udp" },
             match self.mode {
                 RtMode::Paused => "paused".to_string(),
@@ -236,6 +259,7 @@ impl Scn {
             self.rdelay,
             self.rgap,
             self.maxread,
+            self.minread,
             self.gapinject as u8,
             self.intruder as u8,
             self.dur,
@@ -260,6 +284,7 @@ impl Scn {
             rdelay: 0,
             rgap: 0,
             maxread: 0,
+            minread: 0,
             gapinject: false,
             intruder: false,
             dur: 30_000_000,
@@ -284,13 +309,27 @@ impl Scn {
                 "rdelay" => s.rdelay = v.parse().ok()?,
                 "rgap" => s.rgap = v.parse().ok()?,
                 "maxread" => s.maxread = v.parse().ok()?,
+                "minread" => s.minread = v.parse().ok()?,
                 "gapinject" => s.gapinject = v == "1",
                 "intruder" => s.intruder = v == "1",
                 "dur" => s.dur = v.parse().ok()?,
                 "backlog" => s.backlog = v.parse().ok()?,
                 "writes" => {
                     for c in v.split(';') {
-                        s.writes.push(if c.is_empty() { vec![] } else { c.split(',').map(|x| x.parse().unwrap_or(0)).collect() });
+                        let mut ws: Vec<u64> = vec![];
+                        for x in c.split(',').filter(|x| !x.is_empty()) {
+                            match x.split_once('x') {
+                                Some((size, count)) => {
+                                    let (size, count): (u64, usize) = (size.parse().ok()?, count.parse().ok()?);
+                                    if count > 1_000_000 {
+                                        return None;
+                                    }
+                                    ws.extend(std::iter::repeat(size).take(count));
+                                }
+                                None => ws.push(x.parse().unwrap_or(0)),
+                            }
+                        }
+                        s.writes.push(ws);
                     }
                 }
                 _ => {}
@@ -422,11 +461,7 @@ struct ServerApp {
 
 fn read_sizes(scn: &Scn) -> Vec<usize> {
     let all = [1usize, 2, 3, 7, 16, 61, 100, 536, 1000, 1460, 4096, 20000, 70000, 200000];
-    if scn.maxread == 0 {
-        all.to_vec()
-    } else {
-        all.iter().copied().filter(|x| *x as u64 <= scn.maxread).collect()
-    }
+    all.iter().copied().filter(|x| (scn.maxread == 0 || *x as u64 <= scn.maxread) && *x as u64 >= scn.minread).collect()
 }
 
 async fn stream_reader(mut sock: Socket, local: Ep, remote: Ep, scn: Arc<Scn>, done: Arc<AtomicUsize>, shutdown: Shutdown) {
@@ -672,6 +707,23 @@ fn chunk_arg(scn: &Scn, remote: Ep, bytes: &[u8], offs: &mut HashMap<Ep, u64>) -
     }
 }
 
+/// the order in which the writes reached `Tcb::send`; long ones are cut around the first write
+/// that is out of program order
+fn show_perm(p: &[usize]) -> String {
+    if p.len() <= 48 {
+        return format!("{:?}", p);
+    }
+    match p.iter().enumerate().position(|(k, w)| k != *w) {
+        None => format!("[0..{} in program order]", p.len()),
+        Some(k) => {
+            let out_of_place = p.iter().enumerate().filter(|(k, w)| k != *w).count();
+            let a = k.saturating_sub(2);
+            let b = (k + 14).min(p.len());
+            format!("[{} writes; in program order up to #{}; from #{}: {:?} ...; {} writes out of place]", p.len(), k, a, &p[a..b], out_of_place)
+        }
+    }
+}
+
 fn exec_stack(line: &str, rep: &mut CaseReport) {
     let Some(scn) = Scn::parse(line) else {
         rep.line(line, "bad-op");
@@ -686,6 +738,10 @@ fn exec_stack(line: &str, rep: &mut CaseReport) {
     rep.count_n("wire.dropped", run.wire_dropped as u64);
     rep.count_n("wire.duplicated", run.wire_dup as u64);
     rep.count(format!("status.{}", run.status));
+    let most_writes = scn.writes.iter().map(|w| w.len()).max().unwrap_or(0);
+    if scn.tcp && scn.gap == 0 && most_writes >= 250 {
+        rep.count(format!("burst.{}", match most_writes { 0..=1023 => "250-1023", 1024..=2047 => "1024-2047", 2048..=4095 => "2048-4095", _ => "4096+" }));
+    }
 
     // ---------- model lines: the server's socket-layer event sequence (paused runtime only) ----------
     let server_addr = u32::from_be_bytes(SERVER_ADDR);
@@ -845,7 +901,7 @@ fn exec_stack(line: &str, rep: &mut CaseReport) {
                     ("the stream differs", "stream-mismatch")
                 };
                 rep.fail(
-                    format!("client {}: read {} bytes, expected {}, first difference at offset {} — {}; order at Tcb::send {:?}; channel-full drops {}; run {} `{}`", c, got.len(), want.len(), first, what, perms[c], n_full, run.status, line),
+                    format!("client {}: read {} bytes, expected {}, first difference at offset {} — {}; order at Tcb::send {}; channel-full drops {}; run {} `{}`", c, got.len(), want.len(), first, what, show_perm(&perms[c]), n_full, run.status, line),
                     ident,
                 );
             }
@@ -978,10 +1034,73 @@ fn gen_stack(rng: &mut Rng, mode: RtMode, tcp: bool, flavour_set: bool) -> Scn {
         rdelay: *rng.pick(&[0u64, 0, 0, 20000]),
         rgap: *rng.pick(&[0u64, 0, 0, 500]),
         maxread: *rng.pick(&[0u64, 0, 100, 1460]),
+        minread: 0,
         gapinject: false,
         intruder: !tcp && rng.chance(1, 2),
         dur: if paused { 60_000_000 } else { 6_000_000 },
         backlog: 64,
+        writes,
+    }
+}
+
+/// Burst family: clients issuing N back-to-back small writes on one stream socket (no await
+/// between two writes), N beyond every plausible queue bound between the socket and the TCB
+/// (a few hundred .. a few thousand, and sizes around powers of two), the reader draining
+/// concurrently with large reads.  A hand-off that is in order only while some bounded queue has
+/// room (try_send + a spawned / deferred fallback, a batch limit, a ring buffer) reorders or loses
+/// writes only beyond its bound, and -- when the fallback is a spawned task -- only on a
+/// multi-thread runtime: the family runs on multi_thread(4), multi_thread(16) and on the paused
+/// current_thread runtime.  Writes are 3..9 bytes: the whole stream stays below the 65535-byte
+/// send window and arrives in a few dozen chunks (the sender coalesces), far from the 255-slot
+/// socket channel (F-C02-3/7).
+fn gen_burst(rng: &mut Rng, i: u64) -> Scn {
+    const NS: [usize; 4] = [300, 1100, 2500, 5000];
+    const EDGES: [usize; 12] = [255, 256, 257, 511, 513, 1023, 1024, 1025, 2047, 2049, 4095, 4097];
+    let (n, mode, clients) = match i {
+        0 => (5000, RtMode::MultiThread(4), 1),
+        1 => (*rng.pick(&[1100usize, 2500, 1025, 2049, 4097]), RtMode::MultiThread(16), 1),
+        2 => (*rng.pick(&NS), RtMode::Paused, 1),
+        _ => {
+            let n = if rng.chance(1, 2) { *rng.pick(&NS) } else { *rng.pick(&EDGES) };
+            let mode = match rng.below(6) {
+                0 => RtMode::Paused,
+                1 => RtMode::MultiThread(2),
+                2 | 3 => RtMode::MultiThread(4),
+                _ => RtMode::MultiThread(16),
+            };
+            // several clients bursting at once keep the workers busy
+            (n, mode, if rng.chance(1, 3) { rng.range(2, 4) as usize } else { 1 })
+        }
+    };
+    let writes: Vec<Vec<u64>> = (0..clients)
+        .map(|c| {
+            let n = if c == 0 { n } else { *rng.pick(&NS).min(&2500) };
+            let base = rng.range(3, 6);
+            (0..n as u64).map(|k| base + (k / 97) % 4).collect()
+        })
+        .collect();
+    let paused = mode == RtMode::Paused;
+    Scn {
+        tcp: true,
+        mode,
+        mtu: *rng.pick(&[1500u16, 9000]),
+        lat: 200,
+        jit: 0,
+        drop: 0,
+        dup: 0,
+        maxloss: 1,
+        seed: rng.next() % 1_000_000,
+        gap: 0,
+        start: 0,
+        adelay: 0,
+        rdelay: 0,
+        rgap: 0,
+        maxread: 0,
+        minread: 4096,
+        gapinject: false,
+        intruder: false,
+        dur: if paused { 60_000_000 } else { 8_000_000 },
+        backlog: 8,
         writes,
     }
 }
@@ -1284,7 +1403,7 @@ fn run_one_case(spec: &str) -> CaseReport {
 }
 
 const RULE_PAIR: &str = "connected UDP socket pair on a loss-free network, paused current_thread runtime; 4..30 ops per case: datagrams of 0..40 bytes, recv(n) with n in {0,1,len-1,len,len+1,2*len,len+2,all,all+1,1000} (len = head message, all = everything pending) blocking and non-blocking, recv_msg; 1 in 25 cases floods 250..262 datagrams into the 255-slot channel before reading; non-trivial = some read ended inside the pending data or more than 8 ops; distinct = hash of the op lines";
-const RULE_STACK: &str = "full stack (SocketAPI, Tcp/Udp, Ipv4, Arp, Pci, Network): 1..6 clients against one listening server; per client 1..40 writes of 1 B..100 KB back-to-back or spaced (UDP: 1..40 datagrams of 0..2500 B), MTU in {100,120,300,576,1500,9000}, latency 0.2..5 ms, jitter up to 3 ms, drop 1..15 % with at most 1..3 consecutive losses per direction, duplicates 3 % on the paused runtime (thorough tier: jitter 0.3 ms + 1 % drop also on multi_thread); delayed accept, delayed/slow reader, read sizes 1..200000; runtimes: paused current_thread and multi_thread with 2/4/16 workers; fixed scenarios first (20 back-to-back writes on mt:4 and paused, small reads, accept-gap injection, slow reader beyond 255 chunks, late accept beyond 255 chunks, datagrams with intruder); non-trivial = some client issues at least 2 writes; distinct = hash of the scenario line";
+const RULE_STACK: &str = "full stack (SocketAPI, Tcp/Udp, Ipv4, Arp, Pci, Network): 1..6 clients against one listening server; per client 1..40 writes of 1 B..100 KB back-to-back or spaced (UDP: 1..40 datagrams of 0..2500 B), MTU in {100,120,300,576,1500,9000}, latency 0.2..5 ms, jitter up to 3 ms, drop 1..15 % with at most 1..3 consecutive losses per direction, duplicates 3 % on the paused runtime (thorough tier: jitter 0.3 ms + 1 % drop also on multi_thread); delayed accept, delayed/slow reader, read sizes 1..200000; burst family: 1..4 clients each issuing N back-to-back writes of 3..9 bytes, N in {300, 1100, 2500, 5000} or next to a power of two (255..4097), reader draining concurrently with reads >= 4096, on multi_thread(4) (N = 5000), multi_thread(16), the paused runtime, then random flavours incl. multi_thread(2); runtimes: paused current_thread and multi_thread with 2/4/16 workers; fixed scenarios first (20 back-to-back writes on mt:4 and paused, small reads, accept-gap injection, slow reader beyond 255 chunks, late accept beyond 255 chunks, datagrams with intruder); non-trivial = some client issues at least 2 writes; distinct = hash of the scenario line";
 
 pub fn run(args: &Args) {
     if is_worker(args) {
@@ -1305,6 +1424,13 @@ pub fn run(args: &Args) {
         let mt_every: u64 = args.extra.get("mt_every").and_then(|v| v.parse().ok()).unwrap_or(6).max(1);
         let reps: u64 = args.extra.get("reps").and_then(|v| v.parse().ok()).unwrap_or(1);
         let mt_faults = args.extra.get("mt_faults").map(|v| v == "1").unwrap_or(false);
+        let bursts: u64 = args.extra.get("bursts").and_then(|v| v.parse().ok()).unwrap_or(3);
+        {
+            let mut r = Rng::new(args.seed ^ 0xb0257);
+            for i in 0..bursts {
+                specs.push(format!("stack {}", gen_burst(&mut r, i).to_line()));
+            }
+        }
         for i in 0..args.cases {
             let mut r = rng.fork();
             let tcp = !r.chance(1, 5);
